@@ -225,6 +225,81 @@ def probes(chk, w2c2):
                 chk.violation('C05:wrap-probe:%s' % n, '%s (probe variant %s: base+static offset = 2^32+0x10) modified the sentinel at wrapped address 0x10: %s' % (n, var, lines[2]), files)
 
 
+def big_offsets(chk, w2c2):
+    """Static offsets >= 2^31 on a memory larger than 2 GiB (so the accesses are IN bounds): every load/store flavour, compared with V8.
+    The memory is allocated lazily by the host (calloc / V8 reservation); only a few pages are touched."""
+    PAGES = 32770  # 2 GiB + 128 KiB
+    m = Module()
+    m.mems.append((PAGES, PAGES, False))
+    m.exports.append(('mem', 'memory', 0))
+    OFFS = [0x80000000, 0x80000041, 0x8000fff8]
+    names = []
+    for oi, off in enumerate(OFFS):
+        for n, code, t, w in wasm.LOADS:
+            c = {F32: [('i32.reinterpret_f32',)], F64: [('i64.reinterpret_f64',)]}.get(t, [])
+            m.add_func([I32], [I32 if t in (I32, F32) else I64], [], [('local.get', 0), (n, 0, off)] + c, export='l%d_%s' % (oi, n))
+            names.append(('l%d_%s' % (oi, n), 'load', w, off))
+        for n, code, t, w in wasm.STORES:
+            c = {F32: [('f32.reinterpret_i32',)], F64: [('f64.reinterpret_i64',)]}.get(t, [])
+            m.add_func([I32, I32 if t in (I32, F32) else I64], [], [], [('local.get', 0), ('local.get', 1)] + c + [(n, 0, off)], export='s%d_%s' % (oi, n))
+            names.append(('s%d_%s' % (oi, n), 'store', w, off))
+    # the same region reached with a dynamic address and a small offset, to cross-check where the bytes are
+    m.add_func([I32], [I64], [], [('local.get', 0), ('i64.load', 0, 8)], export='peek64')
+    m.add_func([], [I32], [], [('memory.size',)], export='size')
+    b = m.encode()
+    plan = e2e.Plan(m)
+    rnd = env.rng('c05-big')
+    lines = ['I 0', 'c 0 %d' % plan.fk('size')]
+    for nm, kind, w, off in names:
+        if kind == 'store':
+            for a in (0, 7, 0x100):
+                lines.append('c 0 %d %s %s' % (plan.fk(nm), hex(a), hex(rnd.getrandbits(64) if 'i64' in nm or 'f64' in nm else rnd.getrandbits(32))))
+    for nm, kind, w, off in names:
+        if kind == 'load':
+            for a in (0, 3, 0x101):
+                lines.append('c 0 %d %s' % (plan.fk(nm), hex(a)))
+    for a in (0x7ffffff8, 0x80000000, 0x80000038, 0x800000f8, 0x8000fff0):
+        lines.append('c 0 %d %s' % (plan.fk('peek64'), hex(a)))
+    lines.append('w 0 0 0 1024')
+    lines.append('w 0 0 %d 1024' % 0x80000000)
+    lines.append('w 0 0 %d 1024' % 0x8000fc00)
+    script = '\n'.join(lines) + '\n'
+    d = env.subdir('c05-big')
+    files = {'module.wasm': b, 'script.txt': script}
+    try:
+        import mmap
+        mm = mmap.mmap(-1, PAGES * 65536)
+        mm.close()
+    except Exception as ex:
+        chk.log('note: this host cannot reserve a >2GiB anonymous mapping (%s); big-offset part skipped' % ex)
+        chk.observe('big_offset_part', 'skipped: host cannot reserve 2 GiB', 'set')
+        return
+    st, ref, _ = e2e.run_ref(b, plan, script, d)
+    if st != 'ok':
+        chk.log('note: reference engine could not run the >2GiB-memory module (%s %s); big-offset part skipped' % (st, str(ref)[:200]))
+        chk.observe('big_offset_part', 'skipped: reference could not allocate', 'set')
+        return
+    st2, out, r = e2e.build_and_run(w2c2, b, plan, script, os.path.join(d, 'c'), cc='gcc', cflags=['-O1'])
+    if st2 != 'ok':
+        if 'alloc' in str(out).lower() or 'memory' in str(out).lower() and st2 == 'run':
+            chk.log('note: host could not allocate the >2GiB memory: %s' % str(out)[:200])
+            chk.observe('big_offset_part', 'skipped: host could not allocate', 'set')
+            return
+        chk.violation('C05:big-offset:%s' % st2, 'module with static offsets >= 2^31 failed at %s: %s' % (st2, str(out)[:800]), files)
+        return
+    chk.observe('big_offset_part', 'ran', 'set')
+    chk.ev(len(out))
+    for l in ref:
+        pc = diff.parse_call(l)
+        if pc:
+            chk.distinct(('big-offset', pc[1]) + tuple(pc[2]))
+    for step, kind, ra, rb, i in diff.compare(ref, out, {}):
+        pc = diff.parse_call(ref[i])
+        nm = plan.exports[pc[1]]['name'] if pc else 'memory-window'
+        chk.violation('C05:big-offset:%s' % nm.split('_', 1)[-1], 'static offset >= 2^31 (in bounds on a %d-page memory): reference "%s" vs compiled "%s"' % (PAGES, ra[:150], rb[:150]), files)
+        break
+
+
 def main(chk):
     quick = chk.tier == 'quick'
     w2c2 = env.build_translator('plain')
@@ -294,6 +369,7 @@ def main(chk):
         if k < 2:
             chk.sample({'history': k, 'shape': shape, 'ops': script.splitlines()[2:8]})
     probes(chk, w2c2)
+    big_offsets(chk, w2c2)
     chk.observe('histories', nh, 'set')
     chk.observe('ops_per_history', nops, 'set')
     chk.observe('generator_rejected', rejected, 'set')
